@@ -28,7 +28,7 @@ inline std::enable_if_t<!std::is_unsigned<T>::value, T> diff(T const &a, T const
 template <typename T>
 inline std::enable_if_t<std::is_unsigned<T>::value, T> diff(T const &a, T const &b)
 {
-  return std::min(a - b, b - a);
+  return a < b ? static_cast<T>(b - a) : static_cast<T>(a - b);
 }
 
 }
